@@ -378,3 +378,85 @@ def run_replay(exe, prop, hist_path, timeout=120):
         return {'rc': -1, 'out': 'timeout', 'fails': [], 'done': False}
     fails = [(int(m.group(1)), int(m.group(2))) for m in re.finditer(r'CLAUSE-FAIL id=(\d+) step=(\d+)', p.stdout)]
     return {'rc': p.returncode, 'out': p.stdout[-6000:] + p.stderr[-3000:], 'fails': fails, 'done': 'REPLAY-DONE' in p.stdout}
+
+
+def build_aux(kind, cont, n, method, ts='yes'):
+    """real-build helper programs for the concurrency properties: 'race' (two threads under TSan) and 'sched'
+    (nested schedules at lock granularity through an interposed pthread_mutex_lock)"""
+    src = {'race': 'race_driver.cpp', 'sched': 'sched_replay.cpp'}[kind]
+    key = sha(source_hash(), hash_tree([os.path.join(ROOT, 'replay')]), kind, cont, n, method, ts)
+    d = os.path.join(BUILD, 'replay', key)
+    exe = os.path.join(d, '%s_%s_n%d_m%d' % (kind, cont, n, method))
+    if os.path.exists(exe) and not NO_CACHE:
+        return exe
+    os.makedirs(d, exist_ok=True)
+    flags = ['-O1', '-g'] + (['-fsanitize=thread'] if kind == 'race' else [])
+    cmd = ['g++', '-std=c++17'] + flags + ['-DVF_REAL', '-DVF_RUNTIME_PROP', '-Dprivate=public', '-DCONT_API="api_%s.hpp"' % cont,
+           '-DHCAP=%d' % n, '-DTS=%s' % ts, '-DMETHOD=%d' % method, '-I', os.path.join(ROOT, 'harness'), '-I', os.path.join(REPO, 'inc'),
+           os.path.join(ROOT, 'replay', src), '-o', exe + '.tmp', '-ldl', '-lpthread']
+    p = subprocess.run(cmd, capture_output=True, text=True)
+    if p.returncode != 0:
+        raise ToolError('%s build failed (%s):\n%s' % (kind, cont, p.stderr[-3000:]))
+    os.replace(exe + '.tmp', exe)
+    return exe
+
+
+def run_aux(exe, timeout=300):
+    env = dict(os.environ)
+    env['TSAN_OPTIONS'] = 'halt_on_error=0:report_signal_unsafe=0:exitcode=66'
+    try:
+        p = subprocess.run([exe], capture_output=True, text=True, timeout=timeout, env=env)
+    except subprocess.TimeoutExpired:
+        return {'rc': -1, 'out': 'timeout'}
+    return {'rc': p.returncode, 'out': (p.stdout[-3000:] + '\n' + p.stderr[-6000:])}
+
+
+def translation_validation(cont, n=3, seeds=(1,), steps=4000):
+    """real library (g++/libstdc++) versus the encoding (clang -> ir2c -> gcc with vstd) on the same pseudo-random
+    histories: results and abstract states must be byte-identical.  Returns dict(lines, identical, note)."""
+    key = sha(source_hash(), 'diff', cont, n, steps)
+    d = os.path.join(BUILD, 'diff', key)
+    real, model = os.path.join(d, 'real_' + cont), os.path.join(d, 'model_' + cont)
+    if not (os.path.exists(real) and os.path.exists(model)) or NO_CACHE:
+        os.makedirs(d, exist_ok=True)
+        src = os.path.join(ROOT, 'harness', 'diff_drv.cpp')
+        p = subprocess.run(['g++', '-std=c++17', '-O1', '-DVF_REAL', '-DVF_RUNTIME_PROP', '-Dprivate=public', '-DCONT_API="api_%s.hpp"' % cont,
+                            '-DHCAP=%d' % n, '-DTS=no', '-DDSTEPS=%d' % steps, '-I', os.path.join(ROOT, 'harness'), '-I', os.path.join(REPO, 'inc'),
+                            src, '-o', real, '-lpthread'], capture_output=True, text=True)
+        if p.returncode != 0:
+            raise ToolError('differential (real) build failed for %s:\n%s' % (cont, p.stderr[-2000:]))
+        ll, cfile = os.path.join(d, 'diff.ll'), os.path.join(d, 'diff.c')
+        cmd = [CLANG] + [f for f in CLANG_FLAGS] + ['-I', os.path.join(ROOT, 'vstd'), '-I', os.path.join(REPO, 'inc'), '-I', os.path.join(ROOT, 'harness'),
+               '-DCONT_HDR="c_%s.hpp"' % cont, '-DHCAP=%d' % n, '-DTS=no', '-DPROP=-1', '-DDSTEPS=%d' % steps, '-DVSTD_TAB_MAX=%d' % (n + 1),
+               '-DVSTD_LIST_MAX=%d' % (n + 1), src, '-o', ll]
+        p = subprocess.run(cmd, capture_output=True, text=True)
+        if p.returncode != 0:
+            raise ToolError('differential (model) clang failed for %s:\n%s' % (cont, p.stderr[-2000:]))
+        p = subprocess.run([sys.executable, os.path.join(ROOT, 'ir2c', 'ir2c.py'), ll, '-o', cfile], capture_output=True, text=True)
+        if p.returncode != 0:
+            raise ToolError('differential ir2c failed for %s:\n%s' % (cont, (p.stderr or p.stdout)[-2000:]))
+        p = subprocess.run(['gcc', '-O1', '-w', cfile, os.path.join(ROOT, 'hooks', 'native_hooks.c'), '-o', model], capture_output=True, text=True)
+        if p.returncode != 0:
+            raise ToolError('differential gcc failed for %s:\n%s' % (cont, p.stderr[-2000:]))
+    total, identical, note = 0, True, ''
+    for sd in seeds:
+        try:
+            a = subprocess.run([real, str(sd)], capture_output=True, text=True, timeout=120)
+            b = subprocess.run([model, str(sd)], capture_output=True, text=True, timeout=120)
+        except subprocess.TimeoutExpired:
+            return {'lines': total, 'identical': False, 'note': 'differential timed out', 'fatal': False}
+        la, lb = a.stdout.splitlines(), b.stdout.splitlines()
+        same = 0
+        for x, y in zip(la, lb):
+            if x != y:
+                break
+            same += 1
+        total += same
+        if la != lb:
+            identical = False
+            model_msg = [l for l in lb[-3:] if l.startswith('VF_') or l.startswith('UNREACH')]
+            clean = (a.returncode == 0 and b.returncode == 0 and not model_msg)
+            note = 'seed %d: outputs diverge at line %d (real rc %d, model rc %d%s)' % (sd, same + 1, a.returncode, b.returncode,
+                                                                                       (', model: ' + model_msg[0]) if model_msg else '')
+            return {'lines': total, 'identical': False, 'note': note, 'fatal': clean}
+    return {'lines': total, 'identical': identical, 'note': note, 'fatal': False}
